@@ -957,7 +957,50 @@ func sameNameValue(a, b ssa.Value) bool {
 	return ok1 && ok2 && sa == sb
 }
 
+// checkSetVariablePrimitive — R09.11: binding a name always binds it.  Every path through
+// RenderContext.SetVariable stores exactly (name, value) into the receiver's own variable map,
+// and the function removes nothing from it.  A primitive that skips or deletes for some values
+// (null, empty) lets an outer binding of the same name — a global, the including template's
+// variable — show through where the template assigned one.
+func checkSetVariablePrimitive(w *World, r *Report) {
+	fn := w.ssaFunc(w.method("RenderContext", "SetVariable"))
+	if len(fn.Params) != 3 || len(fn.Blocks) == 0 {
+		cannotDecide("R09.11: RenderContext.SetVariable(name, value) not found in the expected form")
+	}
+	recv, name, val := fn.Params[0], fn.Params[1], fn.Params[2]
+	isStore := func(in ssa.Instruction) bool {
+		mu, ok := in.(*ssa.MapUpdate)
+		if !ok {
+			return false
+		}
+		base, ok := fieldLoad(mu.Map, "RenderContext", "context")
+		return ok && unspill(base) == ssa.Value(recv) && unspill(mu.Key) == ssa.Value(name) && unspill(mu.Value) == ssa.Value(val)
+	}
+	construct := "SetVariable stores (name, value) on every path"
+	bad := ""
+	instrsOf(fn, func(in ssa.Instruction) {
+		switch x := in.(type) {
+		case *ssa.Return:
+			if found, path := existsPathAvoiding(fn, in, isStore, nil); found && bad == "" {
+				bad = "a return is reachable without the store ctx.context[name] = value (" + w.posOf(x.Pos()) + ", path " + strings.Join(path, " → ") + ")"
+			}
+		case *ssa.Call:
+			if b, ok := x.Call.Value.(*ssa.Builtin); ok && b.Name() == "delete" {
+				if _, ok := fieldLoad(x.Call.Args[0], "RenderContext", "context"); ok && bad == "" {
+					bad = "the binding is deleted (" + w.posOf(x.Pos()) + ")"
+				}
+			}
+		}
+	})
+	if bad == "" {
+		r.ok("R09.11", ssaName(fn), construct, w.posOf(fn.Pos()), "every path passes the map update with the function's own name and value; nothing is deleted", true)
+	} else {
+		r.bad("R09.11", ssaName(fn), construct, w.posOf(fn.Pos()), bad+": for some values `set`, loop variables and `with` variables do not (re)bind the name, so an outer binding of the same name — an engine global, the including template's variable — is seen instead of the assigned value")
+	}
+}
+
 func checkSetNode(w *World, r *Report) {
+	checkSetVariablePrimitive(w, r)
 	fn := w.ssaFunc(w.method("SetNode", "Render"))
 	setVar := w.method("RenderContext", "SetVariable")
 	evalM := w.method("RenderContext", "EvaluateExpression")
